@@ -15,7 +15,7 @@ def ob(name, freq, defs, npop=6, **kw):
            'refill.*': 6, 'clr_poss.*': 2, 'shift.*': 3, 'mjd2ht.*': 2, 'fill_mly_ymd.*': 4, FN[freq] + '.*': npop + 4,
            'c16_sort.*': 6, 'echs_instant_fixup.*': 3, 'echs_instant_add.*': 3}
     o = dict(name=name, src='h_strm.c', defs=d, units=U, incl=['src/evical.c'], replay_units='all', unwind=4, unwindset=uws,
-             solver='cadical', timeout=1500, mem_gb=12, extra=['--max-field-sensitivity-array-size', '4'],
+             solver='minisat', slice_formula=True, timeout=1500, mem_gb=8, extra=['--max-field-sensitivity-array-size', '4'],
              checks=['--bounds-check'], replace_calls={'echs_instant_sort': 'c16_sort'}, allow_nobody=['echs_tzob_shift', 'echs_instant_utc', 'echs_instant_loc'],
              enc=['refill', 'next_evrrul', FN[freq]], sym='DTSTART, list values, COUNT/UNTIL, position of the peek',
              bounds='%d pops over a cache of 4 (%d refills); %s' % (npop, (npop + 2) // 3, ' '.join(defs)),
@@ -45,9 +45,9 @@ def small(name, freq, defs, npop=3, **kw):
     o['stubs'] = ['hook ECHSE_VERIF_CCH=2'] + o['stubs'][1:]
     return o
 OBLIGATIONS = [
-    small('secondly_restart_c2_p2', 7, ['RESTART', 'EXPECT_REFILLS'], npop=2, timeout=2400),
-    small('daily_restart_c2_p2', 4, ['RESTART', 'EXPECT_REFILLS'], npop=2, timeout=2400),
-    small('daily_count_c2_p2', 4, ['WITH_COUNT'], npop=2, timeout=2400),
+    small('secondly_restart_c2_p2', 7, ['RESTART', 'EXPECT_REFILLS'], npop=2, timeout=800),
+    small('daily_restart_c2_p2', 4, ['RESTART', 'EXPECT_REFILLS'], npop=2, timeout=800),
+    small('daily_count_c2_p2', 4, ['WITH_COUNT'], npop=2, timeout=800),
     small('secondly_restart_c2', 7, ['RESTART', 'EXPECT_REFILLS'], timeout=3400, tiers=T),
     small('hourly_restart_c2', 5, ['RESTART', 'EXPECT_REFILLS'], timeout=3400, tiers=T),
     small('daily_count_c2', 4, ['WITH_COUNT'], timeout=3400, tiers=T),
